@@ -324,5 +324,5 @@ registry! {
    not_le6 [8] => |s, r| { not_contract::<6>(s, r) },
    percentile_index_len_le_2p16 [9] => |s, r| { percentile_index_contract(s, r, 16) },
    percentile_index_len_le_2p40 [9] => |s, r| { percentile_index_contract(s, r, 40) },
-   percentile_index_len_le_2p52 [9] => |s, r| { percentile_index_contract(s, r, 52) },
+   percentile_index_len_le_2p46 [9] => |s, r| { percentile_index_contract(s, r, 46) },
 }
